@@ -3,7 +3,7 @@ import os, sys
 sys.path.insert(0, os.path.join(os.path.dirname(os.path.abspath(__file__)), '..', 'lib'))
 import vcommon as V, e2e
 
-PROPS = ['props/C08.v', 'props/Pipeline.v', 'props/C08_src.v']
+PROPS = ['props/C08.v', 'props/Pipeline.v', 'props/C08_src.v', 'props/State.v']
 ASSUMPTIONS = e2e.ASSUMPTIONS
 EXPLANATION = ("Theorems: a successful verification resolves every counted layout-typed link by a full verification of that layout (own key, sub-directory, no parameters) and replaces it by the returned summary; any failing sublayout fails the whole; an Enter event occurs only for entries of the counted map, whatever the outcome; events of a sublayout lie below its own directory. Correspondence: two- and three-level nestings on disk with a defect at any level.")
 
